@@ -37,7 +37,7 @@ ASSUMPTIONS = [
 ]
 BUDGET = {"quick": {"examples": 1280}, "thorough": {"examples": 30000, "deadline_s": 1500}}
 
-CFG = gen.cfg(max_syms=8, p_choice=8, p_menu=6, p_if=10, type_weights=[(35, "bool"), (30, "int"), (15, "hex"), (10, "string"), (10, "float")])
+CFG = gen.cfg(max_syms=8, p_choice=8, p_menu=6, p_if=10, type_weights=[(35, "bool"), (30, "int"), (15, "hex"), (10, "string"), (10, "float")], p_bare=8)
 SENTINEL_NS = 1_000_000_000 * 1_500_000_000
 
 
